@@ -1,4 +1,4 @@
-import IcyVerif.Model.IgsCanvas
+import IcyVerif.Model.IgsCost
 import IcyVerif.Drv.Igs
 /-! Line protocol for the IGS canvas model (lexer + DrawExecutor + exposed picture):
 `igsx run <hex stream> <observed outcome letters>` → `<picture length> <picture hash> <final lexer digest> ok|bad@<i>`,
@@ -35,7 +35,29 @@ def loop : St → List (Nat × Char) → Nat → Option Nat → LoopRes
       | .unmodelled => .stop s!"unmodelled@{i}"
       | .ok s2 _ => loop s2 rest (i + 1) bad
 
+/-- `igsx cost <hex stream>` → `<pixel accesses of the whole stream> <largest number for one character> ok`: the
+cost functions of `Model/IgsCost.lean` summed along the stream (what the hook counter `VERIF_PIXEL_OPS` of the real
+code shows); `nocount@<i>` when character i runs a command without cost function or leaves a loop running -/
+def costLoop : St → List Nat → Nat → Nat → Nat → String
+  | _, [], _, total, mx => s!"{total} {mx} ok"
+  | s, ch :: rest, i, total, mx =>
+    match IgsCanvas.stepCost s ch with
+    | none => s!"nocount@{i}"
+    | some c =>
+      match IgsCanvas.step s ch with
+      | .panic => s!"panic@{i}"
+      | .stall => s!"stall@{i}"
+      | .unmodelled => s!"unmodelled@{i}"
+      | .ok s1 _ =>
+        match s1.lex.cur with
+        | some _ => s!"nocount@{i}"
+        | none => costLoop s1 rest (i + 1) (total + c) (max mx c)
+
 def handle : List String → String
+  | ["cost", hx] =>
+    match parseHex hx with
+    | none => "bad-op"
+    | some bs => costLoop St.init bs 0 0 0
   | ["run", hx, outs] =>
     match parseHex hx with
     | none => "bad-op"
